@@ -272,3 +272,56 @@ for _i in (False, True):
 OBLIGATIONS.append(Ob("shifttorsion_and_dphidy", ob_shifttorsion_wiring, tier="quick", family="wiring",
                       encodes=["hypnotoad.core.mesh:MeshRegion.calcMetric", "hypnotoad.core.mesh:MeshRegion.geometry2"],
                       desc="ShiftTorsion = DDX(dphidy); dphidy = hy*Bt/(Bp*R)", bounds="1x1 region"))
+
+# ---------------------------------------------------------------------------------------------
+def ob_xarrays_from_regions(env):
+    """BoutMesh.geometry/addFromRegionsXArray (ShiftAngle, total_poloidal_distance): at both locations the global x-array holds, over the radial range
+    of each y-group, the value of the group's FIRST region - wherever that region sits in y - and NaN only where no group has a value"""
+    import ast as _ast
+    from symx import slices as _sl
+    fn, info = _sl.slice_function(mesh_mod.BoutMesh.geometry, lambda n: isinstance(n, _ast.FunctionDef) and n.name == "addFromRegionsXArray",
+                                  lambda n: isinstance(n, _ast.Expr) and "addFromRegions('Rxy'" in _ast.unparse(n), ["self"], mesh_mod.__dict__, name="geometry_addFromRegionsXArray")
+    sym = env.mode == "sym"
+    # radial blocks x in [0,2) and [2,3); y-groups: core (starts at y=2, i.e. NOT at the beginning of the y range) + inner leg PF/outer...,
+    # layout: region 0 = leg at y 0..2 (x 0..2), region 1 = core at y 2..5 (x 0..2, own closed y-group), region 2 = SOL chain first region at y 0..2 (x 2..3)
+    layout = {0: (slice(0, 2), slice(0, 2)), 1: (slice(0, 2), slice(2, 5)), 2: (slice(2, 3), slice(0, 2)), 3: (slice(2, 3), slice(2, 5))}
+    with sym_numpy(env, mla_mod, mesh_mod):
+        regs = {}
+        for rid, (xs, ys) in layout.items():
+            nx = xs.stop - xs.start
+            r = types.SimpleNamespace(myID=rid)
+            a = MultiLocationArray(nx, 1)
+            if rid in (1, 2):   # regions that define a value (closed core; and, for the test of placement, the first SOL region)
+                for i in range(nx):
+                    a.centre[i, 0] = env.real("v%d_centre_%d" % (rid, i))
+                for i in range(nx + 1):
+                    a.xlow[i, 0] = env.real("v%d_xlow_%d" % (rid, i))
+            a.attributes = {}
+            r.ShiftAngle = a
+            regs[rid] = r
+        # y-groups: [leg0 (open PF chain: 0 alone)], [core 1], [SOL chain: 2 then 3]
+        me = types.SimpleNamespace(nx=3, ny=5, regions=regs, region_indices=layout, arrayXDirection_to_output=[],
+                                   y_groups=[[regs[0]], [regs[1]], [regs[2], regs[3]]])
+        loc_ = fn(me)
+        loc_["addFromRegionsXArray"]("ShiftAngle")
+    env.witness("collected")
+    g = me.ShiftAngle
+    env.claim("registered_as_x_array", me.arrayXDirection_to_output == ["ShiftAngle"] and g.attributes.get("bout_type") == "ArrayX")
+    # region 0 (no arrays set) is listed first for x in 0..2 and leaves NaN; region 1 (core, y offset 2) then fills x in 0..2; region 2 fills x = 2
+    def isnan(v):
+        return isinstance(v, (float, numpy.floating)) and v != v
+
+    def same(name, got, want):
+        env.claim(name + ":defined(not_NaN)", not isnan(got))
+        if not isnan(got):
+            env.claim_eq(name, got, want)
+
+    for i in range(2):
+        same("centre_over_the_core's_x_range_is_the_core's_value", g.centre[i, 0], regs[1].ShiftAngle.centre[i, 0])
+        same("xlow_over_the_core's_x_range_is_the_core's_value", g.xlow[i, 0], regs[1].ShiftAngle.xlow[i, 0])
+    same("centre_from_first_region_of_the_outer_group", g.centre[2, 0], regs[2].ShiftAngle.centre[0, 0])
+    same("xlow_from_first_region_of_the_outer_group", g.xlow[2, 0], regs[2].ShiftAngle.xlow[0, 0])
+
+OBLIGATIONS.append(Ob("x_arrays_collected_from_y_groups", ob_xarrays_from_regions, tier="quick", family="collection", encodes=["hypnotoad.core.mesh:BoutMesh.geometry"],
+                      desc="ShiftAngle / total_poloidal_distance: centre AND xlow of the global x-array take the value of the first region of each y-group over its radial range, "
+                           "also when that region does not start at y=0 (the core of every X-point topology)", bounds="4 regions in 3 y-groups, values symbolic"))
